@@ -13,6 +13,7 @@
    every definition carries the source lines it mirrors. *)
 From Coq Require Import List ZArith Bool Arith.
 From Inferno Require Import Base.Num.
+From Inferno Require Import Gen.Conv.
 Import ListNotations.
 
 Inductive err := ERuntime | EValue | EIndex.
@@ -268,8 +269,8 @@ Record geom := mkG { gH : Z; gW : Z; gC : Z; gF : Z; kH : Z; kW : Z;
                      sH : Z; sW : Z; pH : Z; pW : Z; dH : Z; dW : Z }.
 
 (* math.floor((size + 2*padding - dilation*(kernel-1) - 1) / stride + 1) : true (float) division *)
-Definition outsz_code (size p d k s : Z) : Z :=
-  floorZ N (add N (div N (ofZ N (size + 2 * p - d * (k - 1) - 1)%Z) (ofZ N s)) (one N)).
+(* GENERATED: Gen/Conv.v conv_outsize is re-translated from Conv2D.__init__ on every run *)
+Definition outsz_code (size p d k s : Z) : Z := conv_outsize N size p d k s.
 Definition outH (g : geom) : Z := outsz_code (gH g) (pH g) (dH g) (kH g) (sH g).
 Definition outW (g : geom) : Z := outsz_code (gW g) (pW g) (dW g) (kW g) (sW g).
 
